@@ -118,13 +118,15 @@ def gen(rng, size='small'):
             a = unit * rng.choice([1, 1, 2, -1, -1, -2, -4])
             return ('add', a_name(), a)
         if r < 0.40:
-            return ('reserve', rng.randint(0, 3), a_req())
+            return ('reserve', rng.randint(0, 3), a_req() if rng.random() < 0.97 else [])
         if r < 0.55:
             return ('release_all', rng.randint(0, 3))
         if r < 0.72:
             req = a_req()
             if rng.random() < 0.7:
                 req = [[n, abs(a) if a else unit] for n, a in req]
+            if rng.random() < 0.08:
+                req = []          # release({}): a partial release of nothing
             return ('release', rng.randint(0, 3), req)
         if r < 0.78:
             a = rng.randint(0, 3)
